@@ -521,7 +521,7 @@ def k_params(L, c, R):
         R.outc('unclassified by the reference'); return
     R.outc('%s %s %s' % (scheme, c.get('pert', '?').split(':')[0], 'stays valid' if exp else 'invalid'))
     if (code == ERR_OK) != exp:
-        R.bad('%s:%s:%s' % (VALFN[scheme], 'invalid-accepted' if code == ERR_OK else 'valid-rejected', c.get('pert', '?').split(':')[0]), dict(c),
+        R.bad('%s:%s:%s' % (VALFN[scheme], 'invalid-accepted' if code == ERR_OK else 'valid-rejected', c.get('pert', '?') if ',' in c.get('pert', '').split(':')[0] or c.get('name', '').startswith('CM') else c.get('pert', '?').split(':')[0]), dict(c),
               '%s(%s with %s) = %d [%s], reference validator: %s %s' % (VALFN[scheme], c.get('name', ''), c.get('pert', ''), code, L.cfg,
                                                                      'valid' if exp else 'invalid', '(' + note + ')' if note else ''))
     elif code not in (ERR_OK, BAD_PARAMS):
@@ -627,6 +627,11 @@ def perturbations(scheme, D0):
                           ('a:a+p', 'a', D0['a'] + p), ('d:d+p', 'd', D0['d'] + p), ('d:p', 'd', p), ('a:p', 'a', p), ('d:a', 'd', D0['a'])):
             if fits(f, v):
                 yield lab, dict(D0, **{f: v})
+        # the pair (a, d) is tied by a = d^((p-1)/q): consistent alterations of BOTH (beyond "single field"; stb99.h lists 0 < a, d < p and a != e)
+        Ri = pow(RS.mont_R(D0), -1, p); e = RS.mont_R(D0) % p
+        yield 'a,d:zero', dict(D0, a=0, d=0)
+        yield 'a,d:e', dict(D0, a=e, d=e)
+        yield 'a,d:squares', dict(D0, a=a2, d=D0['d'] * D0['d'] * Ri % p)
     if scheme == 'pfok':
         p, g = D0['p'], D0['g']
         R_ = RP.mont_R(D0)
